@@ -15,6 +15,7 @@ def main():
     cat = {m['id']: m for m in json.load(open(os.path.join(VERIF, 'mutants', 'catalogue.json')))}
     res = load('RESULTS.json')
     seeded = load('SEEDED.json')
+    thorough = load('SEEDED_thorough.json')
     lines = ['# Sensitivity results', '',
              'Produced by `selftest_mutants.py` (quick tier unless stated): each mutant / seeded patch is applied to a',
              'scratch copy of `/repo/concepts` under `/var/tmp`, the check runs with `VERIF_REPO` pointing at it, the copy',
@@ -42,6 +43,9 @@ def main():
         meta = json.load(open(os.path.join(base, sid, 'meta.json')))
         r = seeded.get(sid, {})
         outcome = ', '.join(f'{k}: {v}' for k, v in sorted(r.items())) or 'not run'
+        th = thorough.get(sid, {})
+        if th:
+            outcome += '; thorough tier - ' + ', '.join(f'{k}: {v}' for k, v in sorted(th.items()))
         lines.append(f'| `{sid}` | {meta["property"]} | {meta["needs_to_manifest"]} | {outcome} |')
     refac = dict(load('REFACTORINGS.json'))
     for k, v in load('REFACTORINGS2.json').items():   # re-run after the round-7 devices were added
